@@ -137,10 +137,12 @@ def run(ctx, shape, opts):
             k = exp.index(lst)
             ctx.require(m.eq(qid, Int(k, 'u32')), 'id_to_token(id) == get_vocab()[id] for id < vocab_size')
         else:
-            # a single symbolic byte: must be the byte with value id
-            ctx.require(len(bs) == 1 and shape['kind'] != 'char', 'id_to_token(id) == get_vocab()[id] for id < vocab_size')
-            ctx.require(m.conj([m.int_binop('Lt', qid, Int(256, 'u32')), m.eq(m.cast(bs[0], 'u32', 'IntToInt'), qid)]),
-                        'id_to_token(id) == get_vocab()[id] for id < vocab_size')
+            # symbolic bytes: (id, bytes) must be one of the vocabulary entries
+            alts = []
+            for j, tokb in enumerate(exp):
+                if len(tokb) == len(bs):
+                    alts.append(m.conj([m.eq(qid, Int(j, 'u32'))] + [m.eq(x, Int(y, 'u8')) for x, y in zip(bs, tokb)]))
+            ctx.require(m.disj(alts), 'id_to_token(id) == get_vocab()[id] for id < vocab_size')
     else:
         ctx.require(m.int_binop('Ge', qid, Int(n, 'u32')), 'id_to_token(id) is None for id >= vocab_size')
     # token_to_id for every UTF-8 entry (choice over the vocabulary)
